@@ -319,10 +319,10 @@ CHECKS["C14"] = {
     "level": "fault_enumeration",
     "technique": "deviation-bounded exhaustive fault enumeration (every single loss / duplication / delay on every transaction of hours-long runs, and pairs) of the real client against the real server in virtual time",
     "rule": "Engine A fault enumeration: real turn.Client <-> real turn.Server on simnet in one synctest bubble per run; server (lifetime, permission, channel) in {(600,300,600),(120,300,600),(600,150,360)} x traffic in "
-            "{idle: one write per peer then only peer probes every 60 s; both directions every 60 s; both every 10 s; 30-write burst to 3 peers (two share an IP) then 40 min idle; a write to a new peer every 7 min; the app talks to one peer while that peer and a second one on the same IP address (covered by the same permission, never written to) both send every 10 s; first writes to new peers every 20 s while the hourly nonce goes stale, each with a never-written sibling on the same IP sending every 10 s} x (faults) "
+            "{idle: one write per peer then only peer probes every 60 s; both directions every 60 s; both every 10 s; 30-write burst to 3 peers (two share an IP) then 40 min idle; a write to a new peer every 7 min; the app talks to one peer while that peer and a second one on the same IP address (covered by the same permission, never written to) both send every 10 s; first writes to new peers every 20 s while the hourly nonce goes stale, each with a never-written sibling on the same IP sending every 10 s; one write to each of 140 peers (single deviations on the many-peer refreshes only)} x (faults) "
             "every single deviation {drop the first k=1..6 transmissions | drop | duplicate | delay-until-next-retransmission the response} on EVERY transaction of the fault-free run (Allocate x2, Refresh, CreatePermission "
             "new/refresh, ChannelBind per peer, the 438 retries, the closing Refresh 0) over 75 min (quick) / 3 h (thorough); (pairs, 75 min) both deviations on one transaction, thorough also every unordered pair of "
-            "transactions; (close) fault-free runs closed at every 10 s up to 75 min (quick) / every 5 s up to 3 h (thorough) for all 21 combinations. Transmission 7 and its response are never touched and probes are never "
+            "transactions; (close) fault-free runs closed at every 10 s up to 75 min (quick) / every 5 s up to 3 h (thorough) for all 21 combinations (the 140-peer pattern takes part in the faults part only). Transmission 7 and its response are never touched and probes are never "
             "dropped. Oracle: every probe sent while the relayed socket is open arrives exactly once, byte-identical, at the right endpoint and source; no client WARN/ERROR line, no unanswered transaction, no write error; "
             "after relayConn.Close() + quiescence AllocationCount()==0 and the relay socket is closed; the bubble drains. A class is (part, configuration, traffic, transaction kind - deviation kind) -> outcome.",
     "parts": [A("faults", "./checks/c14", "TestC14Faults", gomaxprocs=1, budget={"quick": 60, "thorough": 600}),
